@@ -19,5 +19,5 @@ PLAN = dict(
                 "is an independent RFC 8949 head/length semantics. Exploration level: the enumerated classes are the ones where a head parser "
                 "can go wrong (width classes, reserved/indefinite info, truncation, 2^63 lengths, UTF-8)."),
     level_note=NOTE_BASE,
-    require=[("call", "expect-accept"), ("call", "expect-reject"), ("stream", "has-nonshortest-head"), ("stream", "source:bytes.Buffer"), ("resume", "called-after-reader-fault")],
+    require=[("call", "expect-accept"), ("call", "expect-reject"), ("stream", "has-nonshortest-head"), ("stream", "source:bytes.Buffer"), ("stream", "source:bufio"), ("stream", "source:seekable-advanced"), ("resume", "called-after-reader-fault")],
 )
